@@ -1157,7 +1157,7 @@ impl IpHeaders {
                     Err(ValueTooBigError {
                         actual: len,
                         max_allowed: usize::from(u16::MAX) - exts.header_len(),
-                        value_type: ValueType::Ipv4PayloadLength,
+                        value_type: ValueType::Ipv6PayloadLength,
                     })
                 }
             }
